@@ -663,3 +663,37 @@ def run_bx_vec(name, maxlen, case=None):
                            'tags': props, 'props': props})
     r.discharged = r.obligations - len(r.failures)
     return r
+
+
+def run_bx_resolver(name):
+    """bounded stand-in / second opinion for C18: every typed entry point of the native builder over a matrix of
+    types under a synthetic resolver whose answers differ from the host's for every type"""
+    r = UnitResult(name, 'bx (native execution of the native builder entry points under a synthetic resolver)')
+    t0 = time.time()
+    exe, err = build_bx()
+    if exe is None:
+        r.status, r.reason = INCONCLUSIVE, 'bx does not build against the current tree: %s' % err
+        return r
+    cmd = [exe, 'resolver']
+    r.cmd = ' '.join(cmd)
+    rc, out, err, wall, to = _sh(cmd, 600)
+    r.wall_s = time.time() - t0
+    try:
+        j = json.loads(out[:out.rindex('}') + 1])
+    except Exception:
+        r.status, r.reason = INCONCLUSIVE, 'bx resolver rc=%s: %s' % (rc, (out + err)[-800:])
+        return r
+    r.obligations = j.get('evaluations', 1)
+    r.bounded = ('BOUNDED: 14 types (plain, compound, heap-owning, odd-sized, zero-size with alignment 1 / 8 / 16) x add_datum, add_datum_override (4 override masks; 16 for one type), '
+                 '9 Copy types x add_datum_allow_uninit, add_dynamic_datum, copy_datum; one synthetic resolver whose every answer differs from the host\'s')
+    r.extra = {'evaluations': r.obligations, 'distinct_nontrivial': r.obligations, 'samples': ['add_datum::<[u64; 0]> under a resolver answering size 5, alignment 16'],
+               'rule': 'one evaluation = one entry point called for one type (and override mask); all are non-trivial: the synthetic answer differs from the host\'s'}
+    r.functions = [{'kind': 'fn', 'selector': 'NativeRecordDefinitionBuilder::{add_datum, add_datum_allow_uninit, add_datum_override, add_dynamic_datum, copy_datum} (executed natively)',
+                    'file': 'truc/src/record/definition/builder/native/mod.rs', 'line': 0, 'sha256': 'executed natively'}]
+    if j['violations']:
+        r.status = VIOLATION
+        r.reason = '%d recorded value(s) differ from the resolver\'s answer' % len(j['violations'])
+        r.failures.append({'function': 'native builder entry points', 'message': '; '.join(j['violations'][:3]), 'resolver_case': j['violations'][:10], 'clauses': j['violations'][:10],
+                           'tags': ['C18'], 'props': ['C18']})
+    r.discharged = r.obligations - len(r.failures)
+    return r
